@@ -253,11 +253,9 @@ theorem b64enc_isEmpty (bs : Bytes) : (b64enc bs).isEmpty = bs.isEmpty := by
 
 /-- the binary value kinds: bytes are bytes, and an item makes the byte string non-empty -/
 theorem toBytes_binary (p : Prim) (hr : p.inRange = true)
-    (hk : (match p with
-      | .u8 _ | .u16 _ | .u32 _ | .u64 _ | .f32 _ | .f64 _ => true
-      | _ => false) = true) :
+    (hk : p.binKind = true) :
     IsBytes (toBytes p) ∧ (toBytes p).isEmpty = !p.nonEmpty := by
-  cases p <;> simp at hk
+  cases p <;> simp [Prim.binKind] at hk
   case u8 l =>
     refine ⟨?_, by simp [toBytes, Prim.nonEmpty]⟩
     intro b hb
@@ -339,9 +337,7 @@ theorem text_conforms (lax : Bool) (vr : VR) (p : Prim)
 
 theorem binary_elem (lax : Bool) (vr : VR) (p : Prim) (hc : fClass vr = .binary)
     (hr : p.inRange = true)
-    (hk : (match p with
-      | .u8 _ | .u16 _ | .u32 _ | .u64 _ | .f32 _ | .f64 _ => true
-      | _ => false) = true)
+    (hk : p.binKind = true)
     (hf : lax = true ∨ p.nonEmpty = true) :
     elementF lax (.obj [(kVr, .str (vrName vr)), (kInline, inlineBinary p)]) = true := by
   have hb := toBytes_binary p hr hk
@@ -557,9 +553,7 @@ theorem toJson_panics_illtyped :
 
 /-- the binary clause says what the bytes are: `InlineBinary` decodes to the little-endian bytes -/
 theorem inlineBinary_decodes (p : Prim) (hr : p.inRange = true)
-    (hk : (match p with
-      | .u8 _ | .u16 _ | .u32 _ | .u64 _ | .f32 _ | .f64 _ => true
-      | _ => false) = true) :
+    (hk : p.binKind = true) :
     ∃ s, inlineBinary p = .str s ∧ b64dec s = some (toBytes p) :=
   ⟨_, rfl, b64dec_enc _ (toBytes_binary p hr hk).1⟩
 
